@@ -39,6 +39,7 @@ type Sched struct {
 	GateCommits bool
 	midOps      []bool
 	commitPhase []bool
+	committing  []bool // passed the commit gate, Commit/Rollback is running
 	Gated       int
 	// Strict: schedule entries name participants; an entry whose participant cannot run (finished, not yet
 	// parked) is skipped instead of being mapped onto the remaining ones. Lets a generator write directed
@@ -103,7 +104,7 @@ func (s *Sched) OthersMutatedRegistryDuringLastMerge(id int) bool {
 
 // NewSched creates a scheduler for n participants.
 func NewSched(n int, schedule []int, budget time.Duration) *Sched {
-	s := &Sched{n: n, current: -1, done: make([]bool, n), parked: make([]bool, n), schedule: schedule, spins: make([]int, n), midOps: make([]bool, n), commitPhase: make([]bool, n), pending: make([]string, n)}
+	s := &Sched{n: n, current: -1, done: make([]bool, n), parked: make([]bool, n), schedule: schedule, spins: make([]int, n), midOps: make([]bool, n), commitPhase: make([]bool, n), committing: make([]bool, n), pending: make([]string, n)}
 	s.cond = sync.NewCond(&s.mu)
 	s.deadline = time.Now().Add(budget)
 	return s
@@ -250,6 +251,9 @@ func (s *Sched) EnterCommit(id int) {
 		}
 		s.mu.Unlock()
 		if !busy || s.TimedOut {
+			s.mu.Lock()
+			s.committing[id] = true
+			s.mu.Unlock()
 			return
 		}
 		s.yieldTo(id, "commit-gate")
@@ -258,20 +262,24 @@ func (s *Sched) EnterCommit(id int) {
 
 // yieldTo parks id and hands the token to somebody else (round robin), used by the commit gate.
 func (s *Sched) yieldTo(id int, what string) {
+	s.yieldToWhere(id, func(c int) bool { return s.midOps[c] })
+}
+
+func (s *Sched) yieldToWhere(id int, want func(c int) bool) bool {
 	s.mu.Lock()
 	defer s.mu.Unlock()
 	s.parked[id] = true
 	next := -1
 	for k := 1; k <= s.n; k++ {
 		c := (id + k) % s.n
-		if c != id && !s.done[c] && s.parked[c] && s.midOps[c] {
+		if c != id && !s.done[c] && s.parked[c] && want(c) {
 			next = c
 			break
 		}
 	}
 	if next == -1 {
 		s.parked[id] = false
-		return
+		return false
 	}
 	s.current = next
 	s.cond.Broadcast()
@@ -284,6 +292,7 @@ func (s *Sched) yieldTo(id int, what string) {
 		s.waitWithTimeout()
 	}
 	s.parked[id] = false
+	return true
 }
 
 // HookFor returns the hook to install on participant id's transaction.
@@ -294,6 +303,28 @@ func (s *Sched) HookFor(id int) Hook {
 			return Action{}
 		}
 		s.mu.Lock()
+		if !s.inCommit(id) && s.GateCommits && !s.midOps[id] {
+			// the other half of the commit gate: a participant makes the first call of its operations only while
+			// nobody's Commit is running (its later node fetches would otherwise straddle that commit)
+			for {
+				busy := false
+				for i := 0; i < s.n; i++ {
+					if i != id && s.committing[i] && !s.done[i] {
+						busy = true
+					}
+				}
+				if !busy || s.TimedOut {
+					break
+				}
+				s.Gated++
+				s.mu.Unlock()
+				handed := s.yieldToWhere(id, func(c int) bool { return s.committing[c] })
+				s.mu.Lock()
+				if !handed {
+					break
+				}
+			}
+		}
 		if !s.inCommit(id) {
 			s.midOps[id] = true
 		}
